@@ -76,17 +76,6 @@ theorem contains_map (st : List Nat) (b : Nat) : (st.map ρ).contains (ρ b) = s
     rw [← E.injTy _ _ hρ]; exact hx
   · intro h; exact ⟨b, h, rfl⟩
 
-theorem asm_contains_map (asm : Asm) (a b : Nat) :
-    (mapAsm ρ asm).contains (ρ a, ρ b) = asm.contains (a, b) := by
-  apply Bool.eq_iff_iff.mpr
-  simp only [mapAsm, List.contains_iff_mem, List.mem_map]
-  constructor
-  · rintro ⟨x, hx, hρ⟩
-    simp only [Prod.mk.injEq] at hρ
-    have : x = (a, b) := Prod.ext (E.injTy _ _ hρ.1) (E.injTy _ _ hρ.2)
-    rw [← this]; exact hx
-  · intro h; exact ⟨(a, b), h, rfl⟩
-
 theorem pushStack_map (st : List Nat) (b : Nat) :
     pushStack (st.map ρ) (ρ b) = (pushStack st b).map ρ := by
   unfold pushStack
@@ -111,6 +100,32 @@ theorem map_inj_list : ∀ (l1 l2 : List Nat), l1.map ρ = l2.map ρ → l1 = l2
     | cons y ys =>
       simp only [List.map_cons, List.cons.injEq] at h
       rw [E.injTy _ _ h.1, ih ys h.2]
+
+omit E in
+theorem akey_map (vr : Variant) (st : Stk) (a b : Nat) :
+    akey vr (st.map ρ) (ρ a) (ρ b) =
+      (ρ (akey vr st a b).1, ρ (akey vr st a b).2.1, (akey vr st a b).2.2.map ρ) := by
+  simp only [akey]
+  split <;> rfl
+
+theorem asm_contains_map (asm : Asm) (k : AKey) :
+    (mapAsm ρ asm).contains (ρ k.1, ρ k.2.1, k.2.2.map ρ) = asm.contains k := by
+  apply Bool.eq_iff_iff.mpr
+  simp only [mapAsm, List.contains_iff_mem, List.mem_map]
+  constructor
+  · rintro ⟨x, hx, hρ⟩
+    simp only [Prod.mk.injEq, Stk.map, Stk.mk.injEq] at hρ
+    have : x = k := by
+      obtain ⟨x1, x2, ⟨xl, xr⟩⟩ := x
+      obtain ⟨k1, k2, ⟨kl, kr⟩⟩ := k
+      simp only at hρ
+      rw [E.injTy _ _ hρ.1, E.injTy _ _ hρ.2.1, map_inj_list E _ _ hρ.2.2.1, map_inj_list E _ _ hρ.2.2.2]
+    rw [← this]; exact hx
+  · intro h; exact ⟨k, h, rfl⟩
+
+theorem asm_contains_akey_map (vr : Variant) (asm : Asm) (st : Stk) (a b : Nat) :
+    (mapAsm ρ asm).contains (akey vr (st.map ρ) (ρ a) (ρ b)) = asm.contains (akey vr st a b) := by
+  rw [akey_map]; exact asm_contains_map E asm _
 
 theorem sameContext_map (vr : Variant) (mode : Mode) (st : Stk) :
     sameContext vr mode (st.map ρ) = sameContext vr mode st := by
@@ -166,9 +181,10 @@ theorem unionLeft_map (vr : Variant) (mode : Mode) (asm : Asm) (st : Stk) (a b :
   rw [← restoreOnFail_map]
   congr 1
   rw [pushL_map E]
+  rw [akey_map]
   cases mode
-  · exact allS_map ρ (fun s v => hrec s (st.pushL a) v b) vs ((a, b) :: asm)
-  · exact anyS_map ρ (fun s v => hrec s (st.pushL a) v b) vs ((a, b) :: asm)
+  · exact allS_map ρ (fun s v => hrec s (st.pushL a) v b) vs (akey vr st a b :: asm)
+  · exact anyS_map ρ (fun s v => hrec s (st.pushL a) v b) vs (akey vr st a b :: asm)
 
 theorem unionRight_map (vr : Variant) (asm : Asm) (st : Stk) (a b : Nat) (vs : List Nat) :
     unionRight vr rec' (mapAsm ρ asm) (st.map ρ) (ρ a) (ρ b) (vs.map ρ) =
@@ -176,7 +192,8 @@ theorem unionRight_map (vr : Variant) (asm : Asm) (st : Stk) (a b : Nat) (vs : L
   unfold unionRight
   rw [← restoreOnFail_map, pushR_map E]
   congr 1
-  exact anyS_map ρ (fun s v => hrec s (st.pushR b) a v) vs ((a, b) :: asm)
+  rw [akey_map]
+  exact anyS_map ρ (fun s v => hrec s (st.pushR b) a v) vs (akey vr st a b :: asm)
 
 def mapF (ρ : Nat → Nat) {κ : Type} (f : κ × Nat) : κ × Nat := (f.1, ρ f.2)
 
@@ -370,8 +387,8 @@ theorem relStep_map (vr : Variant) (mode : Mode) (asm : Asm) (st : Stk) (a b : N
       | exact callableCallable_map E hrec vr asm st a b _ _ _ _ _ _
       | (split
          · exact callableCallable_map E hrec vr asm st a b _ _ _ _ _ _
-         · rw [← restoreOnFail_map]
-           exact congrArg _ (callableCallable_map E hrec vr ((a, b) :: asm) st a b _ _ _ _ _ _))
+         · rw [← restoreOnFail_map, akey_map]
+           exact congrArg _ (callableCallable_map E hrec vr (akey vr st a b :: asm) st a b _ _ _ _ _ _))
       | (split
          · rfl
          · exact cycleLeft_map E hrec vr asm st _ b)
@@ -393,7 +410,7 @@ theorem checkRelV_map {ρ τ : Nat → Nat} {T T' : Table} (E : Embeds ρ τ T T
     · have hab' : ρ a = ρ b ∧ sameContext vr mode st = true := ⟨by rw [hab.1], hab.2⟩
       simp [hab, hab', mapRes]
     · have hne : ¬ (ρ a = ρ b ∧ sameContext vr mode st = true) := fun hh => hab ⟨E.injTy _ _ hh.1, hh.2⟩
-      simp only [hab, hne, if_false, asm_contains_map E]
+      simp only [hab, hne, if_false, asm_contains_akey_map E]
       split
       · rfl
       · simp only [E.types]
